@@ -5,8 +5,8 @@ from mc import core
 from models import emphasis
 
 ID = 'C06'
-TECHNIQUE = ('exhaustive enumeration of all strings over small alphabets up to a length bound and of seven '
-             'templates for every Unicode code point, each compared with an independent reference model of '
+TECHNIQUE = ('exhaustive enumeration of all strings over small alphabets up to a length bound and of 37 '
+             'templates (7 + a computed cover of 30) for every Unicode code point, each compared with an independent reference model of '
              'the 0.30 delimiter-run algorithm')
 ASSUMPTIONS = ['reference model models/emphasis.py is written from the spec text and validated in every run '
                'against the spec examples of the emphasis section that stay inside its input class',
@@ -14,7 +14,10 @@ ASSUMPTIONS = ['reference model models/emphasis.py is written from the spec text
 
 A5 = ['a', ' ', '*', '_', '.']
 AU = ['a', '1', '.', '“', ' ', '\xa0', '\xa3', '*', '_']
-TEMPLATES = ['*{c}a*', '*a{c}*', 'a*{c}*a', '_{c}a_', '_a{c}_', 'a_{c}_a', '{c}*a*']
+# the first seven were chosen by hand; the others are a greedy cover of all 46 'distinguishing events' found by enumerating every
+# template of length <= 6 over {a . space c *|_}: for each delimiter, each side of a run and each neighbour kind, a template on
+# which the reference model's output differs between c = letter / punctuation / Unicode white space
+TEMPLATES = ['*{c}a*', '*a{c}*', 'a*{c}*a', '_{c}a_', '_a{c}_', 'a_{c}_a', '{c}*a*', '**a*{c}*', '_.__{c}_', '*.{c}*', '*{c}.*', '_.{c}_', '_{c}._', '*. {c}*', '*{c} .*', '_. {c}_', '_{c} ._', '*.*{c}', '{c}*.*', '{c}_._', '_._{c}', '*.*{c}.', '*.*{c}a', '*.{c}*a', '*a{c}*a', '.{c}_._', '_._{c}.', '_._{c}a', 'a{c}_._', '* {c}*.*', '*.*{c} *', '. {c}_._', '_._{c} .', 'a{c}_a_', '_a_{c}a', 'a{c}_a_ b']
 # ASCII characters with an inline meaning of their own are outside the model's input class
 OWN_MEANING = set('\\`[]<>&!~#*_')
 LINE_ENDS = set('\n\r\x0b\x0c\x1c\x1d\x1e\x85\u2028\u2029')
@@ -108,7 +111,7 @@ def sweep_points(lo, hi, mode):
             yield c
             continue
         cat = unicodedata.category(c)
-        if cat[0] in 'PZS' or cat == 'Cc':
+        if cat[0] in 'PZSM' or cat in ('Cc', 'Cf'):
             yield c
         elif (cat, cp >> 12) not in seen_cat:     # one representative of every other category per 4K block
             seen_cat.add((cat, cp >> 12))
